@@ -350,7 +350,7 @@ class Source(object):
             ln, col = position
             lines = source.splitlines() or ['']
             if ln > len(lines):
-                lines.append('')
+                lines.extend([''] * (ln - len(lines)))
             line = lines[ln-1]
             lines[ln-1] = line[:col] + SOURCE_MARK + line[col:]
             self.source = '\n'.join(lines)
@@ -365,7 +365,11 @@ class Source(object):
     @cached_property
     def tree(self):
         # type: () -> AST
-        return parse(self.source, self.filename)
+        try:
+            return parse(self.source, self.filename)
+        except ValueError as e:
+            # text the compiler cannot even read (lone surrogates, null bytes)
+            raise SyntaxError(str(e))
 
     @cached_property
     def lines(self):
